@@ -1301,12 +1301,17 @@ rrul_fill_mly(echs_instant_t *restrict tgt, size_t nti, rrulsp_t rr)
 	with (int tmp) {
 		tmp = echs_shift_dvalue(rr->shift) +
 			echs_shift_bvalue(rr->shift) * 7 / 5;
+		if (echs_shift_bday_p(rr->shift) &&
+		    !echs_shift_neg_p(rr->shift)) {
+			/* weekends on the way */
+			tmp += 3;
+		}
 
 		if (tmp > 0 && rr->inter <= 12U * y) {
 			/* candidates of earlier months might be shifted to
 			 * here, go back a whole number of intervals so as to
-			 * stay in phase */
-			unsigned int back = (tmp - 1) / 30 + 1;
+			 * stay in phase, february is the shortest */
+			unsigned int back = (tmp - 1) / 28 + 1;
 
 			back += rr->inter - 1U;
 			back -= back % rr->inter;
